@@ -24,8 +24,13 @@ pub fn prop() -> Prop {
     }
 }
 
+thread_local! {
+    /// the whole table runs twice: under the shadow heap, and without it (real address reuse)
+    static LEDGER: std::cell::Cell<bool> = std::cell::Cell::new(true);
+}
+
 fn opts() -> RunOpts {
-    RunOpts { budget: Some(20_000), ledger: true, trace: false, render: true }
+    RunOpts { budget: Some(20_000), ledger: LEDGER.with(|c| c.get()), trace: false, render: true }
 }
 
 const BUILTINS: [&str; 7] = ["print", "type", "bool", "int", "float", "string", "lengte"];
@@ -96,6 +101,13 @@ fn case(sh: &mut Shard, family: &str, body: Vec<Stmt>) {
 }
 
 fn run(sh: &mut Shard) {
+    LEDGER.with(|c| c.set(false));
+    run_tables(sh);
+    LEDGER.with(|c| c.set(true));
+    run_tables(sh);
+}
+
+fn run_tables(sh: &mut Shard) {
     let tier = sh.cfg.tier;
     let big = alphabet();
     let small = small_alphabet();
